@@ -15,7 +15,7 @@ from .. import instrs as I
 from .. import wire
 from ..model import AnalysisError, CArray, CScalar, CStructRef, Unknown, dotted, src
 
-TECHNIQUE = "AST table extraction + symbolic writer/reader composition; abstract interpretation of small functions over an enumerated finite domain by the checker's own AST interpreter (static analysis)"
+TECHNIQUE = "every instruction class's own serialize / deserialize_from executed by the checker's AST interpreter over a model of ctypes structures on enumerated operands (round trip, refusal outside every field's width, framing); opcode / mnemonic uniqueness from the evaluated flavour tables (static analysis; abstract execution)"
 EXPLANATION = (
     "Reads flavour.py / base.py / core.py / vanilla.py / nv.py / operand.py / encoding.py / binary.py / subroutine.py "
     "with ast. C01.U: per flavour the multiset of opcode and mnemonic defaults (through the dataclass MRO) has no "
@@ -679,7 +679,7 @@ BENIGN = [
          old="num_commands = int(len(raw) / encoding.COMMAND_BYTES)", new="num_commands = len(raw) // encoding.COMMAND_BYTES"),
 ]
 
-ENGINES = ["model", "wire", "instrs", "circuit"]
+ENGINES = ["model", "wire", "instrs", "cmodel", "codec", "circuit"]
 LEVEL_TEXT = (
     "Static analysis, full for the stated range: for all 3 flavours and every registered instruction class, opcode and "
     "mnemonic tables are collision-free (exhaustive table check), and for every operand shape and operand class the "
